@@ -497,6 +497,17 @@ func (x *Exec) evalPseudo(name string, n *ast.CallExpr, st *State, env *Env) (Va
 			panic(unsupported(name + "() of something that is not a scanner"))
 		}
 		return v, true
+	case "sorted": // sorted(s): ascending []string (by <) or []int (by <=), as a predicate symbol with a definitional axiom
+		sv := x.eval(n.Args[0], st, env)
+		et := x.elemType(sv.Ty)
+		ref, off, ln, _ := x.sliceParts(sv)
+		if isString(et) {
+			return Val{T: app("gs.sorted", app("select", x.heap(st, sortStr), ref), off, ln), Ty: tBool}, true
+		}
+		if isInt(et) {
+			return Val{T: app("int.sorted", app("select", x.heap(st, "Int"), ref), off, ln), Ty: tBool}, true
+		}
+		panic(unsupported("sorted() on " + sv.Ty.String()))
 	case "uselemma":
 		// uselemma(name, args…): instance of a lemma that is proved separately (obligation lemma.<name>); the instance is
 		// added to the assumptions and is also the value of the call. Not to be used under a quantifier.
